@@ -49,7 +49,7 @@ func (x *Exec) constVal(c *ssa.Const) Val {
 		}
 	}
 	// floats, complex: opaque but deterministic per literal
-	return Val{Typ: t, L: []string{sym("flt!" + c.Value.ExactString())}, Unsup: ""}
+	return Val{Typ: t, L: []string{x.sc.Declare("flt!"+c.Value.ExactString(), "Int")}}
 }
 
 func (f *frame) set(v ssa.Value, val Val) { f.vals[v] = val }
@@ -206,7 +206,7 @@ func (f *frame) execInstr(in ssa.Instruction, st *State, reach string) error {
 			sort := "(Array Int (Array " + ks + " Bool))"
 			a := st.Get(name, sort)
 			st.Set(name, sort, Store(a, obj, "((as const (Array "+ks+" Bool)) false)"))
-			x.markWritten(name)
+			x.markWrittenAt(name, obj)
 		}
 		f.set(in, Val{Typ: in.Type(), L: []string{obj}})
 	case *ssa.MapUpdate:
@@ -226,7 +226,7 @@ func (f *frame) execInstr(in ssa.Instruction, st *State, reach string) error {
 			sort := "(Array Int (Array Int " + l.Sort + "))"
 			a := st.Get(name, sort)
 			st.Set(name, sort, Store(a, obj, "((as const (Array Int "+l.Sort+")) "+zeroLeaf(l)+")"))
-			x.markWritten(name)
+			x.markWrittenAt(name, obj)
 		}
 		f.set(in, Val{Typ: in.Type(), L: []string{obj, "0", n.L[0]}})
 	case *ssa.Slice:
@@ -508,7 +508,7 @@ func (x *Exec) convert(v Val, from, to types.Type, st *State, reach string) Val 
 			a := st.Get(name, sort)
 			x.declBytes()
 			st.Set(name, sort, Store(a, obj, "(bytesOf "+v.L[0]+")"))
-			x.markWritten(name)
+			x.markWrittenAt(name, obj)
 			x.sc.Assume(reach, Eq("(strOf (bytesOf "+v.L[0]+") (str.len "+v.L[0]+"))", v.L[0]))
 		}
 		return Val{Typ: to, L: []string{obj, "0", "(str.len " + v.L[0] + ")"}}
@@ -707,7 +707,7 @@ func (x *Exec) mapUpdate(st *State, m, k, v Val, mapT types.Type, reach string, 
 	dsort := "(Array Int (Array " + ks + " Bool))"
 	d := st.Get(dn, dsort)
 	st.Set(dn, dsort, Store(d, m.L[0], Store(Select(d, m.L[0]), k.L[0], "true")))
-	x.markWritten(dn)
+	x.markWrittenAt(dn, m.L[0])
 	ls := x.eng.layout(mt.Elem())
 	if v.Ptr != nil || len(v.L) != len(ls) {
 		if len(ls) > 0 {
@@ -720,7 +720,7 @@ func (x *Exec) mapUpdate(st *State, m, k, v Val, mapT types.Type, reach string, 
 		vsort := "(Array Int (Array " + ks + " " + l.Sort + "))"
 		a := st.Get(vn, vsort)
 		st.Set(vn, vsort, Store(a, m.L[0], Store(Select(a, m.L[0]), k.L[0], v.L[i])))
-		x.markWritten(vn)
+		x.markWrittenAt(vn, m.L[0])
 	}
 }
 
@@ -814,7 +814,7 @@ func (x *Exec) sliceOp(in *ssa.Slice, xv Val, f *frame, st *State, reach string)
 				row = Store(row, fmt.Sprintf("%d", i), x.leafRead(st, c, leaf))
 			}
 			st.Set(name, sort, Store(a, obj, row))
-			x.markWritten(name)
+			x.markWrittenAt(name, obj)
 		}
 		n := fmt.Sprintf("%d", at.Len())
 		if in.High != nil {
@@ -878,7 +878,7 @@ func (x *Exec) appendOp(s, t Val, sliceT types.Type, st *State, reach string) Va
 			x.sc.Assume(reach, "(forall ((i Int)) (! (=> (and (<= "+s.L[2]+" i) (< i "+newLen+")) (= (select "+row+" i) "+Select(Select(a, t.L[0]), "(+ "+t.L[1]+" (- i "+s.L[2]+"))")+")) :pattern ((select "+row+" i))))")
 			st.Set(name, sort, Store(a, obj, row))
 		}
-		x.markWritten(name)
+		x.markWrittenAt(name, obj)
 	}
 	return Val{Typ: sliceT, L: []string{obj, "0", newLen}}
 }
